@@ -3,8 +3,8 @@
    (Gen_C12_Tableau.v from Phreeqc::rk_kinetics, Gen_C12_Step.v from cxxKinetics::Current_step). *)
 From Coq Require Import Reals QArith Qabs ZArith List.
 From IPV Require Import C12.MiniPrelude C12.RK C12.Step C12.Checker C12.Closed.
-From IPV Require Import Gen.Gen_C12_Tableau Gen.Gen_C12_Step.
-From IPV Require Import C12.Inst C12.RKProofs C12.StepProofs C12.Controller C12.Transfer.
+From IPV Require Import Gen.Gen_C12_Tableau Gen.Gen_C12_Step Gen.Gen_C12_Restart.
+From IPV Require Import C12.Inst C12.RKProofs C12.StepProofs C12.Controller C12.Transfer C12.Restart.
 Import ListNotations.
 Open Scope Q_scope.
 
@@ -144,6 +144,32 @@ Theorem accepted_steps_sum_to_T : forall pw att
   qsum_list (map fst acc) == T /\ Forall (fun he => 0 < fst he /\ snd he <= g_err_limit) acc.
 Proof. exact controller_sums_to_T. Qed.
 Print Assumptions accepted_steps_sum_to_T.
+
+(* ---- CVODE continuation loop of run_reactions (label RESTART) ------------------------------------------ *)
+
+(* however often and wherever the CVode calls stop early (gs = their cvode_last_good_time, own clocks), the call that finally
+   reaches its target hands back a state integrated over exactly kin_time — PROVIDED cvode_last_good_y is the solution
+   at cvode_last_good_time (contract of CVStep; CVODE itself is not modelled) *)
+Theorem cvode_continuation_integrates_kin_time : forall kin_time gs, final_time kin_time gs == kin_time.
+Proof. exact restart_integrates_kin_time. Qed.
+Print Assumptions cvode_continuation_integrates_kin_time.
+
+(* one pass: sum_t accumulates, the next call is asked for tout - sum_t on a clock starting at 0, tout is not touched *)
+Theorem cvode_continuation_asks_for_remaining_time : forall tout sum_t last,
+  g_cv_sum_next sum_t last == sum_t + last /\
+  g_cv_loop_target tout sum_t last - g_cv_loop_tstart tout sum_t last == tout - g_cv_sum_next sum_t last /\
+  g_cv_loop_tstart tout sum_t last == 0 /\
+  g_cv_tout_next tout sum_t last == tout.
+Proof. exact pass_shape. Qed.
+Print Assumptions cvode_continuation_asks_for_remaining_time.
+
+(* the continuation starts from cvode_last_good_y (factor 1), with cvode_last_good_time reset to 0 and CVODE's t0 = tstart *)
+Theorem cvode_continuation_restart_state :
+  g_cv_restart_from_last_good = true /\ g_cv_restart_factor == 1 /\
+  (forall tout sum_t last, g_cv_last_good_reset tout sum_t last == 0) /\
+  (forall k, g_cv_first_t0 k == g_cv_first_tstart k) /\ (forall a b c, g_cv_loop_t0 a b c == g_cv_loop_tstart a b c).
+Proof. exact restart_shape. Qed.
+Print Assumptions cvode_continuation_restart_state.
 
 (* ---- time bookkeeping ---------------------------------------------------------------------------- *)
 Theorem current_step_matches_spec : forall steps cnt eq inc n,
